@@ -74,6 +74,22 @@ pub fn run_views(rec: &J) -> Outcome {
     if let Err(d) = check("ValueCow::Owned", &observe(&owned, &probes), want) { return fail("view differs from LiquidViews", d); }
     if let Err(d) = check("ValueCow::Borrowed", &observe(&borrowed, &probes), want) { return fail("view differs from LiquidViews", d); }
     if let Err(d) = check("Option<Value>", &observe(&Some(v.clone()), &probes), want) { return fail("view differs from LiquidViews", d); }
+    // a Rust String (and &str) seen directly through its own ValueView impl, alone and inside the std containers
+    if v.type_name() == "string" {
+        let st: String = v.to_kstr().into_string();
+        if let Err(d) = check("String", &observe(&st, &probes), want) { return fail("view differs from LiquidViews", d); }
+        if let Err(d) = check("&str", &observe(&st.as_str(), &probes), want) { return fail("view differs from LiquidViews", d); }
+        if let Err(d) = check("Option<String>", &observe(&Some(st.clone()), &probes), want) { return fail("view differs from LiquidViews", d); }
+        let vs: Vec<String> = vec![st.clone()];
+        if let Some(x) = liquid_core::model::ArrayView::get(&vs, 0) {
+            if let Err(d) = check("Vec<String>[0]", &observe(x, &probes), want) { return fail("view differs from LiquidViews", d); }
+        }
+        let mut hm: HashMap<String, String> = HashMap::new();
+        hm.insert("k".to_string(), st.clone());
+        if let Some(x) = ObjectView::get(&hm, "k") {
+            if let Err(d) = check("HashMap<String,String>[k]", &observe(x, &probes), want) { return fail("view differs from LiquidViews", d); }
+        }
+    }
     // conversions
     views.push(("to_value()", v.as_view().to_value()));
     views.push(("ValueCow::into_owned", borrowed.clone().into_owned()));
